@@ -2,6 +2,7 @@ package types
 
 import (
 	"encoding/binary"
+	"github.com/rigochain/rigo-go/ledger"
 	"github.com/tendermint/tendermint/libs/json"
 	tmdb "github.com/tendermint/tm-db"
 	"sync"
@@ -134,6 +135,7 @@ func (stdb *MetaDB) get(k string) []byte {
 }
 
 func (stdb *MetaDB) put(k string, v []byte) error {
+	ledger.VerifPoint("metadb.put:" + k)
 	if err := stdb.db.SetSync([]byte(k), v); err != nil {
 		return err
 	}
